@@ -22,6 +22,7 @@ import (
 	"github.com/coredhcp/coredhcp/server"
 	"github.com/insomniacslk/dhcp/dhcpv4"
 	"github.com/insomniacslk/dhcp/dhcpv6"
+	"golang.org/x/net/ipv4"
 )
 
 func init() { families["lifecycle"] = runLifecycle }
@@ -56,6 +57,10 @@ func runLifecycle(args []string) error {
 	server.VerifSend4Hook, server.VerifSend6Hook, server.VerifFrameHook, server.VerifBufPutHook = nil, nil, nil, nil
 	if *mode == "startrace" {
 		runStartRace(t, *seed)
+		return nil
+	}
+	if *mode == "pinning" {
+		runPinning(t, *seed)
 		return nil
 	}
 	r := rand.New(rand.NewSource(*seed))
@@ -515,5 +520,114 @@ func runStartRace(t *Trace, seed int64) {
 			}
 		}
 		t.Emit(Ev{"ev": "startrace", "cfg": cfg, "res": res, "sent": int(atomic.LoadInt32(&sent)), "replies": replies, "bare": bare})
+	}
+}
+
+// runPinning: C15 on the real server.Start: a listener configured with a plain unicast address of this host (no %zone) is not
+// bound to an interface, so a broadcast reply leaves on the interface the request ARRIVED on - which for a datagram sent from
+// this host is the loopback interface, whichever interface carries the listen address.  What would be written is captured by
+// VerifSend4Hook on the listener Start created; the arrival interface is learned independently from a probe socket.
+func runPinning(t *Trace, seed int64) {
+	r := rand.New(rand.NewSource(seed))
+	type own struct {
+		ip      net.IP
+		ifindex int
+		name    string
+	}
+	var owns []own
+	ifs, _ := net.Interfaces()
+	for _, x := range ifs {
+		as, _ := x.Addrs()
+		for _, a := range as {
+			if n, ok := a.(*net.IPNet); ok && n.IP.To4() != nil && x.Flags&net.FlagUp != 0 {
+				owns = append(owns, own{n.IP.To4(), x.Index, x.Name})
+			}
+		}
+	}
+	var mu sync.Mutex
+	var got []server.VerifSent4
+	server.VerifSend4Hook = func(s server.VerifSent4) bool {
+		mu.Lock()
+		got = append(got, s)
+		mu.Unlock()
+		return true // captured; nothing is written
+	}
+	defer func() { server.VerifSend4Hook = nil }()
+	for k, o := range owns {
+		port := 20000 + (r.Intn(20000)+os.Getpid()*131+k*23+12000)%20000
+		// where does a datagram this host sends to o.ip arrive?
+		arrived := 0
+		if pc, err := net.ListenPacket("udp4", fmt.Sprintf("%s:%d", o.ip, port+1)); err == nil {
+			p4 := ipv4.NewPacketConn(pc)
+			p4.SetControlMessage(ipv4.FlagInterface, true)
+			if c, err := net.DialUDP("udp4", nil, &net.UDPAddr{IP: o.ip, Port: port + 1}); err == nil {
+				c.Write([]byte("probe"))
+				pc.SetReadDeadline(time.Now().Add(2 * time.Second))
+				buf := make([]byte, 64)
+				if _, cm, _, err := p4.ReadFrom(buf); err == nil && cm != nil {
+					arrived = cm.IfIndex
+				}
+				c.Close()
+			}
+			pc.Close()
+		}
+		if arrived == 0 {
+			t.Emit(Ev{"ev": "note", "what": "pinning: arrival interface of " + o.ip.String() + " not learned, skipped"})
+			continue
+		}
+		addr := net.UDPAddr{IP: o.ip, Port: port}
+		conf := &config.Config{Server4: &config.ServerConfig{Addresses: []net.UDPAddr{addr}, Plugins: []config.PluginConfig{{Name: "server_id", Args: []string{o.ip.String()}}}}}
+		srv, err := server.Start(conf)
+		if err != nil {
+			t.Emit(Ev{"ev": "note", "what": "pinning: Start on " + addr.String() + " failed: " + err.Error()})
+			continue
+		}
+		for i, bflag := range []bool{true, true, false} {
+			mu.Lock()
+			got = nil
+			mu.Unlock()
+			mt := dhcpv4.MessageTypeDiscover
+			mods := []dhcpv4.Modifier{dhcpv4.WithMessageType(mt)}
+			if bflag {
+				mods = append(mods, dhcpv4.WithBroadcast(true))
+			}
+			m, _ := dhcpv4.New(mods...)
+			m.ClientHWAddr = net.HardwareAddr{2, 0, 7, 7, byte(k), byte(i)}
+			e := Ev{"ev": "pin4", "listen": o.name, "listenif": o.ifindex, "arrived": arrived, "bflag": bflag, "sent": false, "woob": false, "ifindex": 0, "pbc": false, "l2": false}
+			if c, err := net.DialUDP("udp4", nil, &addr); err == nil {
+				c.Write(m.ToBytes())
+				c.Close()
+			}
+			for w := 0; w < 100; w++ {
+				mu.Lock()
+				n := len(got)
+				mu.Unlock()
+				if n > 0 {
+					break
+				}
+				time.Sleep(20 * time.Millisecond)
+			}
+			mu.Lock()
+			if len(got) > 0 && got[0].Resp != nil {
+				s := got[0]
+				e["sent"] = true
+				e["l2"] = s.L2
+				if s.Peer != nil {
+					e["pbc"] = s.Peer.IP.Equal(net.IPv4bcast)
+				}
+				if s.Woob != nil {
+					e["woob"], e["ifindex"] = true, s.Woob.IfIndex
+				}
+			}
+			mu.Unlock()
+			t.Emit(e)
+		}
+		srv.Close()
+		done := make(chan error, 1)
+		go func() { done <- srv.Wait() }()
+		select {
+		case <-done:
+		case <-time.After(5 * time.Second):
+		}
 	}
 }
